@@ -115,6 +115,7 @@ class Sim:
         d = plan.get('diskfault')
         self.diskfault = dict(d, seen=0, fired=False, ops=[], seq=None, op=None, path=None) if d else None
         self.sandboxes = []  # created by resolver / mkdtemp
+        self.std_streams = {}  # 'stdout' / 'stderr' of the simulated Exactly process (set by host.run_cli)
         self.resolver_fault = plan.get('resolver_fault')
         self.sandbox_requests = 0
 
